@@ -140,6 +140,7 @@ type stressCfg struct {
 }
 
 func runStress(m *meta, w *traceWriter, rng *rand.Rand, sc stressCfg, round int) {
+	settleBase := [2]int64{kioshun.VerifStagedCount(), kioshun.VerifDeliveredCount()}
 	ctx := fmt.Sprintf("stress round %d cfg %+v workers=%d keys=%d", round, sc.conf, sc.workers, sc.keys)
 	var clock atomic.Int64
 	var notMu sync.Mutex
@@ -273,11 +274,12 @@ func runStress(m *meta, w *traceWriter, rng *rand.Rand, sc stressCfg, round int)
 	watch(ctx + " Sync")
 	c.Sync()
 	// the notifier (and a re-entrant listener writing from it) must settle before the state is quiescent
-	for i, stable, lastSt := 0, 0, int64(-1); i < 2000 && stable < 3; i++ {
+	for i, stable, lastSt := 0, 0, int64(-1); i < 5000 && stable < 3; i++ {
 		c.VerifFlushRemovals()
 		c.Sync()
 		st := kioshun.VerifStagedCount()*1000003 + c.Size()
-		if st == lastSt {
+		// stable, and every staged removal has been handed to the listeners (none still in the notifier's hand)
+		if st == lastSt && kioshun.VerifDeliveredCount()-settleBase[1] >= kioshun.VerifStagedCount()-settleBase[0] {
 			stable++
 		} else {
 			stable, lastSt = 0, st
